@@ -31,7 +31,8 @@ type caseT struct {
 
 type M = map[string]any
 
-var section = map[string]string{"schema": "schemas", "parameter": "parameters", "header": "headers", "response": "responses", "requestBody": "requestBodies", "pathItem": "pathItems"}
+var section = map[string]string{"schema": "schemas", "parameter": "parameters", "header": "headers", "response": "responses", "requestBody": "requestBodies", "pathItem": "pathItems",
+	"example": "examples", "securityScheme": "securitySchemes"}
 
 func definition(kind string, decoy bool) M {
 	typ := "integer"
@@ -49,6 +50,10 @@ func definition(kind string, decoy bool) M {
 		return M{"description": "ok", "content": M{"application/json": M{"schema": M{"type": typ}}}}
 	case "requestBody":
 		return M{"required": true, "content": M{"application/json": M{"schema": M{"type": typ}}}}
+	case "example":
+		return M{"summary": "an " + typ, "value": M{"x": map[bool]any{false: 1, true: true}[decoy]}}
+	case "securityScheme":
+		return M{"type": "apiKey", "in": "header", "name": map[bool]string{false: "X-Key", true: "X-Decoy"}[decoy]}
 	default: // pathItem
 		return M{"get": M{"responses": M{"200": M{"description": "ok", "content": M{"application/json": M{"schema": M{"type": typ}}}}}}}
 	}
@@ -79,6 +84,16 @@ func sites(kind string, x func() any) M {
 		return M{"/a": M{"get": M{"responses": M{"200": x()}}}, "/b": M{"get": M{"responses": M{"200": x(), "404": x()}}}}
 	case "requestBody":
 		return M{"/a": M{"post": M{"requestBody": x(), "responses": ok200()}}, "/b": M{"put": M{"requestBody": x(), "responses": ok200()}}}
+	case "example":
+		r := func(ex M) M {
+			return M{"200": M{"description": "ok", "content": M{"application/json": M{"schema": M{"type": "object"}, "examples": ex}}}}
+		}
+		return M{"/a": M{"get": M{"responses": r(M{"e1": x()})}}, "/b": M{"get": M{"responses": r(M{"e2": x(), "e3": x()})}}}
+	case "securityScheme":
+		// a scheme is used by name: the reference (or the copy) sits in components under the
+		// name S (see doc), both operations require S
+		req := []any{M{"S": []any{}}}
+		return M{"/a": M{"get": M{"security": req, "responses": ok200()}}, "/b": M{"get": M{"security": req, "responses": ok200()}}}
 	default:
 		return M{"/a": x(), "/b": x()}
 	}
@@ -103,6 +118,18 @@ func doc(kind string, paths M, comps M) M {
 	return d
 }
 
+// withS: the use site of a security scheme is the component named S.
+func withS(kind string, comps M, x any) M {
+	if kind != "securityScheme" {
+		return comps
+	}
+	out := M{"S": x}
+	for k, v := range comps {
+		out[k] = v
+	}
+	return out
+}
+
 // ring member: schemas recurse through a property, every other kind is a pure reference
 func ringMember(kind string, next int) M {
 	if kind == "schema" {
@@ -115,7 +142,7 @@ func ringMember(kind string, next int) M {
 func render(c caseT) (root M, files map[string]M, inlined M) {
 	files = map[string]M{}
 	def := definition(c.Kind, false)
-	inlined = doc(c.Kind, sites(c.Kind, func() any { return definition(c.Kind, false) }), nil)
+	inlined = doc(c.Kind, sites(c.Kind, func() any { return definition(c.Kind, false) }), withS(c.Kind, nil, definition(c.Kind, false)))
 	comps := M{}
 	switch c.Shape {
 	case "chain", "deep":
@@ -123,12 +150,12 @@ func render(c caseT) (root M, files map[string]M, inlined M) {
 			comps[fmt.Sprintf("C%d", i)] = ref("", c.Kind, i+1)
 		}
 		comps[fmt.Sprintf("C%d", c.N)] = def
-		root = doc(c.Kind, sites(c.Kind, func() any { return ref("", c.Kind, 1) }), comps)
+		root = doc(c.Kind, sites(c.Kind, func() any { return ref("", c.Kind, 1) }), withS(c.Kind, comps, ref("", c.Kind, 1)))
 	case "cycle":
 		for i := 1; i <= c.N; i++ {
 			comps[fmt.Sprintf("C%d", i)] = ringMember(c.Kind, i%c.N+1)
 		}
-		root = doc(c.Kind, sites(c.Kind, func() any { return ref("", c.Kind, 1) }), comps)
+		root = doc(c.Kind, sites(c.Kind, func() any { return ref("", c.Kind, 1) }), withS(c.Kind, comps, ref("", c.Kind, 1)))
 	case "diamond":
 		// Base is reached through two sibling variants of Event; n=2 reverses the variant order
 		base := M{"type": "object", "required": []string{"x"}, "properties": M{"x": M{"type": "integer"}}}
@@ -160,7 +187,7 @@ func render(c caseT) (root M, files map[string]M, inlined M) {
 		for i := 1; i <= c.N; i++ {
 			comps[fmt.Sprintf("C%d", i)] = definition(c.Kind, true)
 		}
-		root = doc(c.Kind, sites(c.Kind, func() any { return ref("other.json", c.Kind, 1) }), comps)
+		root = doc(c.Kind, sites(c.Kind, func() any { return ref("other.json", c.Kind, 1) }), withS(c.Kind, comps, ref("other.json", c.Kind, 1)))
 	}
 	return root, files, inlined
 }
@@ -299,7 +326,7 @@ const depthLimit = 3
 // Check is the C07 entry point.
 func Check(r *core.Run) error {
 	r.SetRule("TLC checks the resolver machine (Key, cache lookup, AddKey, children, Store, Delete) on every reference graph of N components and depth limit L: every event is accepted by the acceptor, contexts end balanced, rings end in 'infinite recursion' " +
-		"and over-long chains in 'depth limit'. Conformance: TLC enumerates (kind, shape, n) cases over 6 component kinds x {chain, cross-file chain with same-named decoys in the root, ring, over-deep chain}; each is rendered as a referencing document " +
+		"and over-long chains in 'depth limit'. Conformance: TLC enumerates (kind, shape, n) cases over 8 component kinds x {chain, cross-file chain with same-named decoys in the root, ring, over-deep chain}; each is rendered as a referencing document " +
 		"used from two sites with different context (header names, paths) and as its inlined twin; parser.Parse outcomes and canonical projections of the parsed APIs (Ref/locations dropped) are compared (T1), the expanded document is re-parsed (T4), " +
 		"and the hook events of build tag verif (AddKey/Delete/CacheStore/CacheHit) of these parses and of the corpus specs are validated against the acceptor (T3, cache discipline). Non-trivial = every case; distinct = (kind, shape, n, outcome).")
 	if !installHooks(nil) {
